@@ -37,7 +37,6 @@ type c08Scenario struct {
 	Nested  bool       `json:"wrapper_of_a_wrapper_both_handles_used,omitempty"`
 	Bound   int        `json:"wrapped_structure_capacity,omitempty"`
 	NilVal  int        `json:"value_stored_as_nil_pointer,omitempty"`
-	PanicAt int        `json:"wrapped_structure_panics_in_its_kth_call,omitempty"`
 	Trim    []int      `json:"node_pool_trimmed_before,omitempty"` // [m, n]: m values go through the wrapper, then the owner trims the wrapped list's node pool to n
 
 	h          *Hist
@@ -72,11 +71,9 @@ func genC08(t *simrt.Tape, tier string) Scenario {
 		// which the wrapper hands through - and goes on working afterwards
 		sc.Bound = 1 + t.Choose(3)
 	}
-	if strings.HasSuffix(sc.Kind, "-slice") && sc.Bound == 0 && t.Bool(1, 4) {
-		// fault: the wrapped structure panics inside its k-th insertion / removal (the caller recovers): the wrapper
-		// stays usable for everybody else
-		sc.PanicAt = 1 + t.Choose(6)
-	}
+	// (a wrapped structure that panics was tried as a fault and withdrawn: the property presupposes a wrapped
+	// structure whose calls return - "no call panics" - so what the wrapper owes its other users after such a panic
+	// is not stated; a wrapper that unlocks explicitly instead of by defer satisfies the property. DESIGN.md §9, 17)
 	maxT, maxOps := 4, 4
 	if tier == "thorough" {
 		if t.Bool(1, 3) {
@@ -128,24 +125,13 @@ func (sc *c08Scenario) Nontrivial(res *simrt.Result) bool {
 
 // sliceQueue is non-thread-safe by construction: a yield sits between every load and store.
 type sliceQueue struct {
-	s       *simrt.Sim
-	items   []int
-	bound   int
-	panicAt int // the k-th call panics before touching anything (0 = never)
-	calls   int
-}
-
-func (q *sliceQueue) fault() {
-	q.calls++
-	if q.calls == q.panicAt {
-		q.s.Fault("wrapped-structure-panics")
-		panic("c08: injected panic of the wrapped structure")
-	}
+	s     *simrt.Sim
+	items []int
+	bound int
 }
 
 func (q *sliceQueue) Offer(v int) error { return q.insert(v, fpgo.ErrQueueIsFull) }
 func (q *sliceQueue) insert(v int, full error) error {
-	q.fault()
 	cur := q.items
 	q.s.Yield()
 	if q.bound > 0 && len(cur) >= q.bound {
@@ -160,7 +146,6 @@ func (q *sliceQueue) insert(v int, full error) error {
 }
 func (q *sliceQueue) Put(v int) error { return q.Offer(v) }
 func (q *sliceQueue) Poll() (int, error) {
-	q.fault()
 	cur := q.items
 	q.s.Yield()
 	if len(cur) == 0 {
@@ -174,7 +159,6 @@ func (q *sliceQueue) Poll() (int, error) {
 func (q *sliceQueue) Take() (int, error) { return q.Poll() }
 func (q *sliceQueue) Push(v int) error   { return q.insert(v, fpgo.ErrStackIsFull) }
 func (q *sliceQueue) Pop() (int, error) {
-	q.fault()
 	cur := q.items
 	q.s.Yield()
 	if len(cur) == 0 {
@@ -200,9 +184,9 @@ func (sc *c08Scenario) Run(s *simrt.Sim) {
 		ll = fpgo.NewLinkedListQueue[int]()
 		stack = ll
 	case "queue-slice":
-		queue = &sliceQueue{s: s, bound: sc.Bound, panicAt: sc.PanicAt}
+		queue = &sliceQueue{s: s, bound: sc.Bound}
 	case "stack-slice":
-		stack = &sliceQueue{s: s, bound: sc.Bound, panicAt: sc.PanicAt}
+		stack = &sliceQueue{s: s, bound: sc.Bound}
 	}
 	var cq fpgo.Queue[int]
 	var cs fpgo.Stack[int]
@@ -471,13 +455,7 @@ func (sc *c08Scenario) Check(res *simrt.Result) []Violation {
 	if sc.h == nil {
 		return vs
 	}
-	for _, v := range opPanics(sc.h) {
-		if sc.PanicAt > 0 && strings.Contains(v.Fingerprint+v.Detail, "c08: injected panic of the wrapped structure") {
-			sc.probes["injected-panic-of-the-wrapped-structure-reached-the-caller"]++
-			continue // the fault itself; what matters is that everybody else goes on
-		}
-		vs = append(vs, v)
-	}
+	vs = append(vs, opPanics(sc.h)...)
 	vs = append(vs, sc.extra...)
 	if len(sc.extra) > 0 {
 		return dedupe(vs)
